@@ -20,13 +20,13 @@ cvars == <<pos, ustk, rstk, adepth, cps>>
 
 CInit == pos = 0 /\ ustk = <<>> /\ rstk = <<>> /\ adepth = 0 /\ cps = <<>>
 
-Snap == [pos |-> pos, ustk |-> ustk, rstk |-> rstk, adepth |-> adepth]
+Snap == [kind |-> "c", pos |-> pos, ustk |-> ustk, rstk |-> rstk, adepth |-> adepth]
 Top_ == cps[Len(cps)]
 Rest_ == SubSeq(cps, 1, Len(cps) - 1)
 
 Checkpoint == cps' = Append(cps, Snap) /\ UNCHANGED <<pos, ustk, rstk, adepth>>
-Ok         == cps # <<>> /\ cps' = Rest_ /\ UNCHANGED <<pos, ustk, rstk, adepth>>
-RestoreCp  == /\ cps # <<>>
+Ok         == cps # <<>> /\ Top_.kind = "c" /\ cps' = Rest_ /\ UNCHANGED <<pos, ustk, rstk, adepth>>
+RestoreCp  == /\ cps # <<>> /\ Top_.kind = "c"
               /\ pos' = Top_.pos /\ ustk' = Top_.ustk /\ rstk' = Top_.rstk /\ adepth' = Top_.adepth
               /\ cps' = Rest_
 
@@ -38,4 +38,9 @@ PushR(v)   == rstk' = Append(rstk, v) /\ UNCHANGED <<pos, ustk, adepth, cps>>
 PopR       == rstk # <<>> /\ rstk' = SubSeq(rstk, 1, Len(rstk) - 1) /\ UNCHANGED <<pos, ustk, adepth, cps>>
 AInc       == adepth' = adepth + 1 /\ UNCHANGED <<pos, ustk, rstk, cps>>
 AZero      == adepth' = 0 /\ UNCHANGED <<pos, ustk, rstk, cps>>
+\* "with state.atomic_checkpoint():" (rule.py, on entry to a rule that switches atomicity): a scope that saves the atomic depth
+\* alone and restores it on exit; scopes and checkpoints nest properly (the with statement guarantees it)
+AEnter     == cps' = Append(cps, [kind |-> "a", adepth |-> adepth]) /\ UNCHANGED <<pos, ustk, rstk, adepth>>
+AExit      == /\ cps # <<>> /\ Top_.kind = "a"
+              /\ adepth' = Top_.adepth /\ cps' = Rest_ /\ UNCHANGED <<pos, ustk, rstk>>
 =============================================================================
